@@ -121,6 +121,23 @@ func fileLines(p string) string {
 	return sx(strings.Join(ls, "\n"))
 }
 
+// short printable literals of config/*.go without the separators of the option syntax
+var cfgDomTokens = func() []string {
+	out := []string{"-", "_"}
+	for _, t := range sourceDict("config/forwarder.go", "config/profile.go", "config/config.go").strs {
+		ok := len(t) <= 3
+		for _, c := range []byte(t) {
+			if c <= 32 || c >= 127 || c == '=' || c == ',' || c == '%' {
+				ok = false
+			}
+		}
+		if ok {
+			out = append(out, t)
+		}
+	}
+	return out
+}()
+
 func configEngine(args []string) error {
 	c := parseCommon("config", args)
 	r := newRng(c.seed)
@@ -162,6 +179,12 @@ func configEngine(args []string) error {
 		}
 		for i := r.intn(4); i > 0; i-- {
 			dom := []string{"corp", "Corp.", "lan", "example.com", "x.lan."}[r.intn(5)]
+			if r.coin(35) {
+				// unusual but printable domains: short tokens that appear as literals in the option parsers
+				// (read from the current source), repeated, in front of an ordinary domain
+				tok := cfgDomTokens[r.intn(len(cfgDomTokens))]
+				dom = strings.Repeat(tok, r.rng(1, 3)) + []string{"corp", "corp.example", "Lan."}[r.intn(3)]
+			}
 			addr := []string{"10.0.0.1", "10.0.0.2:5353", "https://doh.example/dns#1.2.3.4", "10.0.0.1,10.0.0.3"}[r.intn(4)]
 			if r.coin(15) {
 				add("forwarder", addr)
